@@ -196,6 +196,12 @@ def modes(ctx, n_invalid, n_valid):
         v = payload + ref_luhn(payload)
         valid.append(v)
         pool.extend(m for _, m in mutations(v))
+        if len(payload) >= 8 and len(valid) % 3 == 0:
+            # the same number as people write it: groups separated by blanks or hyphens
+            sep = ' ' if len(valid) % 2 else '-'
+            grouped = sep.join(payload[i:i + 4] for i in range(0, len(payload), 4)) + ref_luhn(payload)
+            valid.append(grouped)
+            pool.extend(m for _, m in mutations(grouped))
     # deterministic batch: short systematic payloads plus seed-derived long ones
     for L in range(1, 5):
         for t in itertools.islice(itertools.product(DIG, repeat=L), 0, None, 7):
